@@ -1,6 +1,6 @@
 """C18 — PEAK chunk data and the signal-max commands equal the true maxima."""
 import os
-from .. import c18lib as L
+from .. import c18lib as L, c18stale
 from ..core import Violation, VERIF, modules_for
 
 MODULES = modules_for("C18")
@@ -39,7 +39,7 @@ def run(ctx):
     # ---- campaigns ----
     allf = []
     for (tag, fn) in (("peak", L.peak_campaign), ("calc", L.calc_campaign), ("l1calc", getattr(L, "l1_calc_campaign", None)),
-                      ("toggle_rdwr", L.toggle_rdwr_campaign)):
+                      ("toggle_rdwr", L.toggle_rdwr_campaign), ("stale", c18stale.stale_campaign)):
         if fn is None:
             continue
         fs, st = fn(ctx, quick=quick)
@@ -84,5 +84,6 @@ def run(ctx):
         "call boundary, negative maximum, zeros, >24-bit doubles, binary32-exact doubles) x caller types (same, other float type, s32, s16, scaled or not) x partitions "
         "(one call, per frame, odd sizes, longer than the staging buffer); chunk bytes + SFC_GET_* on the write handle and after re-open vs exact maxima and vs sfmodel c18 peak. "
         "calc: every writable format x channels, 4 CALC commands at seeded positions/norm flags vs the maximum of the sequential reference stream, state probes before/after, "
-        "vs sfmodel c18 calc; l1calc: RAW/AU/WAV transcripts vs sfmodel c18 script; toggle_rdwr: SFC_SET_ADD_PEAK_CHUNK off/on/late, RDWR extension. "
+        "vs sfmodel c18 calc; stale: PEAK containers x FLOAT/DOUBLE x histories that leave the PEAK chunk stale (seek back + overwrite in write mode, overwrite and "
+        "SFC_FILE_TRUNCATE through SFM_RDWR, chunk patched in the file bytes) -> CALC x4 == maxima of the stored samples (r and rw handles), GET == the chunk in the file; l1calc: RAW/AU/WAV transcripts vs sfmodel c18 script; toggle_rdwr: SFC_SET_ADD_PEAK_CHUNK off/on/late, RDWR extension. "
         "distinct_nontrivial = distinct (container, encoding, channels, caller, shape, partition) peak tags + distinct calc formats + witnesses")
